@@ -145,6 +145,7 @@ def deleteTemplateF (x : FW) (id : String) : FW × Resp :=
 def faultable : Op → Bool
   | .tupdate _ _ _ => false
   | .restart => false
+  | .die _ => false
   | _ => true
 
 /-- One request with the fault oracle (`none` = no fault). -/
